@@ -14,6 +14,7 @@ import (
 	"fmt"
 	"os"
 	"path/filepath"
+	"runtime"
 	"sort"
 	"strconv"
 	"strings"
@@ -50,15 +51,27 @@ type QDef struct {
 	ID     int    `json:"id"`
 	Max    int64  `json:"max"`
 	Ival   int64  `json:"interval"`
-	Unit   string `json:"unit"`            // second | minute
+	Unit   string `json:"unit"`            // second | minute | hour | day
 	Parent int    `json:"parent"`          // 0 = none
 	Group  int    `json:"group_by_header"` // 0 = none, else index into hdrNames
 	Custom bool   `json:"custom_counter"`
+	// allocation_percentage of the parent (internal limits only): the YAML names
+	// only the percentage, the loader copies the parent's strategy and scales max
+	// (possibly down to 0); the other fields hold the resulting values
+	Alloc int64 `json:"allocation_percentage,omitempty"`
+	// spillover configured (withSpillover = true in every quota object; the
+	// spill-over counter itself is never written on this tree)
+	Spill bool `json:"spillover,omitempty"`
 }
 
 func (q QDef) wsec() int64 {
-	if q.Unit == "minute" {
+	switch q.Unit {
+	case "minute":
 		return 60 * q.Ival
+	case "hour":
+		return 3600 * q.Ival
+	case "day":
+		return 86400 * q.Ival
 	}
 	return q.Ival
 }
@@ -75,11 +88,15 @@ type Step struct {
 	Q    int    `json:"quota"`
 	R    int    `json:"request"` // index into Reqs
 	Now  int64  `json:"now_ns"`  // mock clock when the step runs
-	Out  string `json:"out"`     // none | true | false | already | increased | blocked | err
+	// engt: readings of the clock at the levels above the request's own quota,
+	// in order (AtomicIncWindow of the parent, of the grandparent, ...); when
+	// exhausted the clock no longer advances
+	Later []int64 `json:"later_ns,omitempty"`
+	Out   string  `json:"out"` // none | true | false | already | increased | blocked | err
 }
 
 type Case struct {
-	Kind   string `json:"kind"` // res | eng
+	Kind   string `json:"kind"` // res | eng | engt
 	Forest []QDef `json:"forest"`
 	Reqs   []Req  `json:"requests"`
 	Steps  []Step `json:"steps"`
@@ -109,14 +126,56 @@ func setClock(ns int64) {
 	curTime = ns
 }
 
+// levelClock is the clock the engine sees: the mock clock, except that a
+// scripted list of later readings is consumed by the successive calls of
+// memoryState.AtomicIncWindow (its own clock.Now(), not the fall-back reading
+// inside atomicGetWindow): the first call of a request reads the clock as it
+// stands, the n-th call first advances the mock clock to script[n-2].  This
+// puts a window edge BETWEEN the reading of a child and of its parent without
+// touching /repo.
+type levelClock struct {
+	*clock.MockClock
+	script []int64
+	calls  int
+	active bool
+}
+
+func (l *levelClock) Now() time.Time {
+	if l.active {
+		var pcs [4]uintptr
+		n := runtime.Callers(2, pcs[:])
+		fr, _ := runtime.CallersFrames(pcs[:n]).Next()
+		if strings.HasSuffix(fr.Function, ").AtomicIncWindow") {
+			l.calls++
+			if i := l.calls - 2; i >= 0 && i < len(l.script) {
+				setClock(l.script[i])
+			}
+		}
+	}
+	return l.MockClock.Now()
+}
+
+func (l *levelClock) Since(t time.Time) time.Duration { return l.Now().Sub(t) }
+func (l *levelClock) Until(t time.Time) time.Duration { return t.Sub(l.Now()) }
+
+var lvl *levelClock
+
 func quotaYAML(f []QDef) string {
 	var roots, kids strings.Builder
+	anySpill := false
+	for _, q := range f {
+		anySpill = anySpill || q.Spill
+	}
 	one := func(b *strings.Builder, q QDef) {
 		fmt.Fprintf(b, "  - id: q%d\n", q.ID)
 		if q.Parent != 0 {
 			fmt.Fprintf(b, "    parent_id: q%d\n", q.Parent)
 		} else {
 			b.WriteString("    filter:\n      url: verif.test/*\n")
+		}
+		if q.Alloc != 0 {
+			fmt.Fprintf(b, "    strategy:\n      allocation_percentage: %d\n", q.Alloc)
+			return
 		}
 		kind := "fixed_window"
 		if q.Custom {
@@ -129,6 +188,14 @@ func quotaYAML(f []QDef) string {
 		}
 		if q.Custom {
 			fmt.Fprintf(b, "        counter_value_path: '%s'\n", costPath)
+		}
+		if q.Spill {
+			b.WriteString("        spillover:\n          max: 2\n")
+		}
+		if anySpill && !q.Custom {
+			// the validator wants a monthly renewal next to a spill-over (the
+			// constructors of fixedWindow never read it)
+			b.WriteString("        monthly_renewal:\n          day: 1\n          hour: 0\n          minute: 0\n          timezone: UTC\n")
 		}
 	}
 	for _, q := range f {
@@ -318,7 +385,12 @@ func execEng(k *Case) {
 		req := onRequest(k, k.Reqs[s.R], s.Q)
 		api := stream_types.NewRequestAPIStream(req, shared)
 		acts := &stream_config.StreamActions{Request: &stream_config.RequestStream{}, Response: &stream_config.ResponseStream{}}
-		if err := st.ExecuteFlow(api, acts); err != nil {
+		// VERIF_C01_NOLEVELS=1: self-test of the suite (the scripted readings are
+		// not played; the correspondence must then report mismatches)
+		lvl.script, lvl.calls, lvl.active = s.Later, 0, k.Kind == "engt" && os.Getenv("VERIF_C01_NOLEVELS") == ""
+		err := st.ExecuteFlow(api, acts)
+		lvl.active = false
+		if err != nil {
 			s.Out = "err"
 			continue
 		}
@@ -428,6 +500,14 @@ func coqEng(k *Case) string {
 	return c.Tuple(coqForest(k.Forest), h, outs)
 }
 
+func coqEngT(k *Case) string {
+	h := c.MapList(k.Steps, func(s Step) string {
+		return c.Tuple(c.Z(int64(s.Q)), coqReq(k.Reqs[s.R]), c.Z(s.Now), c.ZList(s.Later))
+	})
+	outs := c.MapList(k.Steps, func(s Step) string { return c.B(s.Out == "true") })
+	return c.Tuple(coqForest(k.Forest), h, outs)
+}
+
 // ---------------------------------------------------------------- monitor glue
 
 func byID(f []QDef) map[int]QDef {
@@ -471,13 +551,24 @@ func monitorCaseSeq(k *Case) *monHit {
 	f := byID(k.Forest)
 	cfg := map[string]keyCfg{}
 	var evs []seqEvent
-	if k.Kind == "eng" {
+	if k.Kind == "eng" || k.Kind == "engt" {
 		for i, s := range k.Steps {
 			if s.Out == "err" {
 				return &monHit{"error:ExecuteFlow", "requests are processed", fmt.Sprintf("step %d failed", i)}
 			}
 			keys, costs := chainKeys(f, s.Q, k.Reqs[s.R], cfg)
-			evs = append(evs, seqEvent{idx: i, t: s.Now, admitted: s.Out == "true", chain: keys, costs: costs})
+			ev := seqEvent{idx: i, t: s.Now, admitted: s.Out == "true", chain: keys, costs: costs}
+			if k.Kind == "engt" {
+				// the instant at which each key of the chain was consulted
+				cur := s.Now
+				for lv := range keys {
+					if lv > 0 && lv-1 < len(s.Later) {
+						cur = s.Later[lv-1]
+					}
+					ev.ts = append(ev.ts, cur)
+				}
+			}
+			evs = append(evs, ev)
 		}
 	} else {
 		for i := 0; i+1 < len(k.Steps); i++ {
@@ -582,7 +673,7 @@ func genForest(r *c.Rng, style int) []QDef {
 	for id := 1; id <= n; id++ {
 		q := QDef{ID: id, Max: int64(c.Pick(r, []int{1, 1, 2, 2, 3, 4})), Ival: int64(r.Range(1, 3)), Unit: "second"}
 		if r.Chance(1, 40) {
-			q.Ival, q.Unit = 1, "minute"
+			q.Ival, q.Unit = 1, c.Pick(r, []string{"minute", "minute", "hour", "day"})
 		}
 		if id > 1 && r.Chance(3, 4) {
 			var cand []int
@@ -600,6 +691,13 @@ func genForest(r *c.Rng, style int) []QDef {
 			q.Group = r.Range(1, 2)
 		}
 		q.Custom = r.Chance(1, 6)
+		q.Spill = r.Chance(1, 6)
+		if q.Parent != 0 && r.Chance(1, 8) {
+			// allocation_percentage: the parent's strategy with max scaled (30% of 1-3 = 0)
+			p := f[q.Parent-1]
+			q.Alloc = int64(c.Pick(r, []int{30, 50, 50, 100}))
+			q.Max, q.Ival, q.Unit, q.Group, q.Custom, q.Spill = p.Max*q.Alloc/100, p.Ival, p.Unit, p.Group, p.Custom, p.Spill
+		}
 		f = append(f, q)
 	}
 	return f
@@ -640,8 +738,9 @@ func genReqs(r *c.Rng, n int, style int, f []QDef) []Req {
 			if len(maxes) > 0 && r.Chance(2, 3) {
 				m := c.Pick(r, maxes)
 				q.Cost = int64(c.Pick(r, []int{m - 1, m, m, m + 1, m + 1, 1}))
-				if q.Cost < 0 {
-					q.Cost = 0
+				if r.Chance(1, 12) {
+					// strconv.ParseInt accepts a sign: a negative cost lowers the counter
+					q.Cost = -int64(r.Range(1, 2))
 				}
 			}
 		}
@@ -807,6 +906,77 @@ func genEng(r *c.Rng) Case {
 	return k
 }
 
+func depthOf(f []QDef, q int) int {
+	m := byID(f)
+	d := 0
+	for ; q != 0; q = m[q].Parent {
+		d++
+	}
+	return d
+}
+
+// engt: sequential requests through the engine, the clock advancing between
+// the levels of the chain walk (aimed at the ancestors' window edges)
+func genEngT(r *c.Rng) Case {
+	style := c.Pick(r, []int{2, 2, 2, 0})
+	k := Case{Kind: "engt", Forest: genForest(r, style), Seq: true}
+	n := r.Range(3, 8)
+	k.Reqs = genReqs(r, n, style, k.Forest)
+	g := newClockGen(r, k.Forest)
+	// the deepest quota gets most of the traffic
+	fav := k.Forest[0].ID
+	for _, q := range k.Forest {
+		if depthOf(k.Forest, q.ID) > depthOf(k.Forest, fav) {
+			fav = q.ID
+		}
+	}
+	for i := 0; i < n; i++ {
+		q := fav
+		if r.Chance(1, 4) {
+			q = c.Pick(r, k.Forest).ID
+		}
+		st := Step{Kind: "limiter", Q: q, R: i, Now: g.next(i == 0)}
+		g.counted()
+		levels := depthOf(k.Forest, q) - 1
+		switch r.Intn(8) {
+		case 0:
+			levels-- // the clock stops before the last level
+		case 1:
+			levels++ // one reading nobody takes
+		}
+		for lv := 0; lv < levels; lv++ {
+			st.Later = append(st.Later, g.next(false))
+			g.counted()
+		}
+		k.Steps = append(k.Steps, st)
+	}
+	return k
+}
+
+// a window edge of the parent falls between the child's and the parent's
+// reading (and the other way round: the child's edge)
+func levelEdgeCases() []Case {
+	var out []Case
+	b := baseSec * sec
+	for _, pw := range []int64{1, 2} {
+		for _, d1 := range []int64{-1, 0, 1} {
+			for _, d0 := range []int64{-1, 0} {
+				for _, first := range []int64{0, 300_000_000} {
+					edge := b + pw*sec
+					k := Case{Kind: "engt", Seq: true,
+						Forest: []QDef{{ID: 1, Max: 1, Ival: pw, Unit: "second"}, {ID: 2, Max: 5, Ival: 10, Unit: "second", Parent: 1}},
+						Reqs:   []Req{{ID: 1, Hdrs: map[int]int{}}, {ID: 2, Hdrs: map[int]int{}}, {ID: 3, Hdrs: map[int]int{}}},
+						Steps: []Step{{Kind: "limiter", Q: 2, R: 0, Now: b + first, Later: []int64{b + first + 1}},
+							{Kind: "limiter", Q: 2, R: 1, Now: edge + d0 - 1, Later: []int64{edge + d1}},
+							{Kind: "limiter", Q: 2, R: 2, Now: edge + d1, Later: []int64{edge + d1 + 2}}}}
+					out = append(out, k)
+				}
+			}
+		}
+	}
+	return out
+}
+
 // the design-phase reproduction of F-C01 and its minimal form
 func fc01Cases() []Case {
 	t0 := baseSec*sec + 300_000_000
@@ -933,6 +1103,41 @@ func nontrivial(k *Case) bool {
 	return false
 }
 
+// engt: additionally some request read a later instant at an ancestor
+func nontrivialT(k *Case) bool {
+	adv := false
+	for _, s := range k.Steps {
+		if n := len(s.Later); n > 0 && s.Later[n-1] > s.Now {
+			adv = true
+		}
+	}
+	refused, admitted := false, false
+	for _, s := range k.Steps {
+		refused = refused || s.Out == "false"
+		admitted = admitted || s.Out == "true"
+	}
+	return adv && refused && admitted
+}
+
+// the property counts requests (cost units for custom counters); with a
+// negative cost in play it says nothing, so the monitor stays out (the
+// correspondence still covers the case)
+func negativeCost(k *Case) bool {
+	custom := false
+	for _, q := range k.Forest {
+		custom = custom || q.Custom
+	}
+	if !custom {
+		return false
+	}
+	for _, r := range k.Reqs {
+		if r.HasCost && r.Cost < 0 {
+			return true
+		}
+	}
+	return false
+}
+
 func run(o *c.Out, k Case) {
 	var idx int
 	var hit *monHit
@@ -949,6 +1154,10 @@ func run(o *c.Out, k Case) {
 	case "eng":
 		execEng(&k)
 		idx = o.Case("eng", coqEng(&k), k, nontrivial(&k))
+		hit = monitorCaseSeq(&k)
+	case "engt":
+		execEng(&k)
+		idx = o.Case("engt", coqEngT(&k), k, nontrivialT(&k))
 		hit = monitorCaseSeq(&k)
 	default:
 		panic("bad case kind " + k.Kind)
@@ -974,6 +1183,10 @@ func run(o *c.Out, k Case) {
 			o.Count("step=" + s.Kind)
 		}
 	}
+	if negativeCost(&k) {
+		o.Count("monitor=skipped-negative-cost")
+		return
+	}
 	o.MonitorChecked(1)
 	if hit != nil {
 		o.Hit(c.Hit{Suite: suite, Index: idx, Signature: hit.sig, Demanded: hit.demanded, Observed: hit.observed, Case: k})
@@ -985,10 +1198,13 @@ func main() {
 	o := c.NewOut("C01")
 	o.DeclareSuite("res", "From Verif Require Import C01.Model.", "case_res", "run_res")
 	o.DeclareSuite("eng", "From Verif Require Import C01.Model.", "case_eng", "run_eng")
+	o.DeclareSuite("engt", "From Verif Require Import C01.Model.", "case_engt", "run_engt")
 	o.Rule("res: random quota forests (1-4 quotas, depth <= 3, max 1-4, window 1-3 s or 1 min, 0-1 grouping header per quota, " +
 		"unit or custom-counter cost) x schedules of 4-14 Inc/Allowed/Dec/ResetIn and per-key KInc/KAllowed/KDec steps of 2-6 requests " +
 		"(a quarter of them limiter calls one after the other), clock readings aimed at s*1e9-1, s*1e9, s*1e9+1, (s+W)*1e9+-1 and " +
 		"sub-second first instants; eng: same forests, one Limiter flow per quota, 3-9 sequential requests through ExecuteFlow; " +
+		"engt: as eng on chains of depth 2-4 with the mock clock advanced between the levels of the walk (a scripted reading per " +
+		"AtomicIncWindow call, aimed at the ancestors' window edges +-1 ns), non-trivial there = a later reading at an ancestor, a refusal and an admission; " +
 		"distinct = distinct (forest, schedule, observed verdicts); non-trivial = contains a refusal and, at least 1 s later, an admission on the same quota id")
 	repo := os.Getenv("VERIF_REPO")
 	if repo == "" {
@@ -996,6 +1212,8 @@ func main() {
 	}
 	environment.SetProcessorsDirectory(filepath.Join(repo, "proxy/src/services/lunar-engine/streams/processors/registry"))
 	mock = context_manager.Get().SetMockClock().GetMockClock()
+	lvl = &levelClock{MockClock: mock}
+	context_manager.Get().VerifC11SetClock(lvl)
 	setClock(baseSec * sec)
 
 	var k Case
@@ -1011,12 +1229,19 @@ func main() {
 		run(o, k)
 	}
 	rr := o.Rng.Fork(1)
-	for i := 0; i < o.Scale(1500, 20000, 6000); i++ {
+	for i := 0; i < o.Scale(1300, 20000, 6000); i++ {
 		run(o, genRes(rr))
 	}
 	re := o.Rng.Fork(2)
-	for i := 0; i < o.Scale(500, 4000, 2500); i++ {
+	for i := 0; i < o.Scale(450, 4000, 2500); i++ {
 		run(o, genEng(re))
+	}
+	for _, k := range levelEdgeCases() {
+		run(o, k)
+	}
+	rt := o.Rng.Fork(3)
+	for i := 0; i < o.Scale(280, 1500, 1500); i++ {
+		run(o, genEngT(rt))
 	}
 	if o.Thorough() {
 		exhaustive(o)
